@@ -116,7 +116,7 @@ inductive Stmt where
   | createIndex (ix : Index)
   | alterAdd (c : ColDef)
   | dropIndex (name : String)
-  deriving Repr
+  deriving DecidableEq, Repr
 
 def Stmt.isDml : Stmt → Bool
   | .insertSelect _ => true
@@ -179,7 +179,7 @@ def applyStmt (ct : ConvTable) (db : Db) : Stmt → Except Err Db
     | none => .error .noSuchTable
     | some t =>
       if (colIndex t.schema.cols c.name).isSome then .error .duplicateColumn
-      else if !c.nullable && c.default.isNone then .error .addNotNull
+      else if !c.nullable && c.default.isNone && !t.rows.isEmpty then .error .addNotNull   -- only on a non-empty table
       else .ok { db with orig := some { schema := { t.schema with cols := t.schema.cols ++ [c] },
                                         rows := t.rows.map (· ++ [c.dval]) } }
   | .dropIndex n =>
